@@ -91,6 +91,75 @@ sym_pair!(krkn_btm_negation, krkn_btm_mirror, false, &[(0, 4), (1, 2)], 1, crate
 sym_pair!(kqkb_wtm_negation, kqkb_wtm_mirror, true, &[(0, 5), (1, 3)], 1, crate::c13::nonterminal_stub);
 sym_pair!(kbpkn_wtm_negation, kbpkn_wtm_mirror, true, &[(0, 3), (0, 1), (1, 2)], 1, crate::c13::nonterminal_stub);
 
+// ---- quick-tier slices ------------------------------------------------------------------------------
+// Each full-family query above costs 15-20 min of SAT solving over IEEE floats. The quick tier runs
+// slices that keep one part of the position concrete:
+//  * bare kings, one of them on a symbolic square (negation and mirror): the king tables, the king-to-edge term and the
+//    end-game interpolation with its float rounding;
+//  * kings concrete (g1 / b8), one white man of each kind in turn on a symbolic square; its mirror image
+//    holds the black man: the piece-square tables of every kind for both colours.
+fn slice_kings_only(which: u8, tag: &str) {
+    // bare kings: the white king on a symbolic square, the black king on b8 (its mirror image has the black
+    // king symbolic and the white king on b1); terminal positions cannot occur with bare kings
+    let wtm: bool = kani::any();
+    let wk: u8 = kani::any();
+    kani::assume(wk < 64 && wk != 57);
+    let mut bb = [[0u64; 6]; 2];
+    bb[0][K] = bit(wk);
+    bb[1][K] = bit(57);
+    let p = Pos { bb, wtm, rights: [false; 4], ep: NO_SQ, half: 0, full: 1 };
+    kani::assume(legal_position(&p));
+    print_pos(tag, &p);
+    run_symmetry(&p, which, tag);
+}
+
+fn slice_one_man(kind: u8, which: u8, tag: &str) {
+    // a white man; the mirrored position then holds the black man of that kind on the mirrored square,
+    // so one mirror query exercises the tables of both colours
+    let wtm: bool = kani::any();
+    let p = crate::sym::family_kings_at(wtm, 6, 57, &[(0, kind)], false, tag);
+    kani::assume(king_has_quiet_step(&p));
+    run_symmetry(&p, which, tag);
+}
+
+fn run_symmetry(p: &Pos, which: u8, tag: &str) {
+    let persp_white: bool = kani::any();
+    let ply: usize = kani::any();
+    kani::assume(ply <= 1_000_000);
+    println!("CASE {{\"harness\":\"{}\",\"perspective_white\":{},\"ply\":{}}}", tag, persp_white, ply);
+    let ev = Evaluator::default();
+    let s = to_state(p);
+    let e = ev.evaluate(&s, col(persp_white), ply);
+    if which == 0 {
+        let o = ev.evaluate(&s, col(!persp_white), ply);
+        assert!(e == -o, "score from one perspective is the negation of the score from the other");
+    } else {
+        let m = mirror(p);
+        let em = ev.evaluate(&to_state(&m), col(!persp_white), ply);
+        assert!(em == e, "the colour-mirrored position scores the same from the mirrored perspective");
+    }
+    kani::cover!(e != Evaluation::EVEN, "non-zero score");
+}
+
+macro_rules! slice_harness {
+    ($name:ident, $body:expr, $stub:path) => {
+        proof_geo! {
+            #[cfg_attr(kani, kani::stub(weechess_core::MoveGenerator::compute_legal_moves, $stub))]
+            fn $name() {
+                $body
+            }
+        }
+    };
+}
+
+slice_harness!(q_kings_negation, slice_kings_only(0, "c13 q_kings_negation"), crate::c13::nonterminal_stub);
+slice_harness!(q_kings_mirror, slice_kings_only(1, "c13 q_kings_mirror"), crate::c13::nonterminal_stub);
+slice_harness!(q_pawn_mirror, slice_one_man(1, 1, "c13 q_pawn_mirror"), crate::c13::nonterminal_stub);
+slice_harness!(q_knight_mirror, slice_one_man(2, 1, "c13 q_knight_mirror"), crate::c13::nonterminal_stub);
+slice_harness!(q_bishop_mirror, slice_one_man(3, 1, "c13 q_bishop_mirror"), crate::c13::nonterminal_stub);
+slice_harness!(q_rook_mirror, slice_one_man(4, 1, "c13 q_rook_mirror"), crate::c13::nonterminal_stub);
+slice_harness!(q_queen_mirror, slice_one_man(5, 1, "c13 q_queen_mirror"), crate::c13::nonterminal_stub);
+
 /// Lemma, unbounded: weighting a score commutes with negation on the real `Mul<f32>` (truncation
 /// toward zero is odd), for the three weights the evaluator uses.
 proof! {
